@@ -1,9 +1,11 @@
 """C17 — the public part of an encrypted message never contains its sensitive content."""
-from .. import witness
+from .. import cfgx, witness
 from ..build import AnalysisBroken
 from ..effects import classify_use
 
-UNITS = ['base/QXmppMessage.cpp', 'client/QXmppClient.cpp']
+UNITS = ['base/QXmppMessage.cpp', 'client/QXmppClient.cpp',
+         # the data classes whose element predicates route children into sensitive fields (R2e)
+         'base/QXmppJingleData.cpp', 'base/QXmppBitsOfBinaryData.cpp', 'base/QXmppMessageReaction.cpp', 'base/QXmppTrustMessages.cpp']
 MSG = 'QXmppMessage'
 PRIV = 'QXmppMessagePrivate::'
 
@@ -318,6 +320,8 @@ def run(prog, run):
     else:
         run.ok(r2d, pes.loc(), 'no part-owned field is written by the pass driver outside its guard (%d field writes seen)' % sum(len(v) for r in Wpe.values() for v in r.values()))
 
+    r2e_predicates(prog, run, par)
+
     # ---- R3 encrypted send path
     r3 = run.rule('C17.R3', 'the encrypted send path serializes the outer message with the constant QXmpp::ScePublic; encrypted inbound '
                             'messages are parsed in public mode', floor=2)
@@ -421,3 +425,98 @@ def run(prog, run):
                         and f.nodes[n['args'][1]]['k'] != 'defarg':
                     run.instance(r4)
                     run.ok(r4, f.loc(i), '%s passes %s' % (f.display()[:60], f.fmt(n['args'][1])), nontrivial=False)
+
+
+# --------------------------------------------------------------------------- R2e: what the sensitive writer emits is recognised by the sensitive reader
+def r2e_predicates(prog, run, par):
+    rid = run.rule('C17.R2e', 'an element predicate (T::isT(element)) that routes a child into a field of the sensitive part accepts every element T\'s own writer emits: whatever '
+                              'attribute or child the predicate insists on is written unconditionally by the writer. Otherwise an object the writer serialized without it comes '
+                              'back from the sensitive part as an unknown extension - the field is not recovered, and unknown extensions are written in every mode', floor=4)
+    seen = set()
+    for f, base in _codec_scope(prog, par):
+        for i, n in f.calls():
+            s_ = f.sym(n) or {}
+            if not (s_.get('inrepo') and s_.get('ret') == 'bool' and (s_.get('name') or '').startswith('is') and s_.get('record') and len(n.get('args', [])) == 1):
+                continue
+            if _combine(base, region_of(f, i)) != 'Sensitive' and not any(_combine(base, region_of(f, j)) == 'Sensitive' for j in _guarded_nodes(f, i)):
+                continue
+            gs = [g for g in prog.callee_fns(f, n) if g.entry is not None]
+            if s_['qname'] in seen:
+                continue
+            if not gs:
+                raise AnalysisBroken('C17.R2e: the body of %s is not among the analysed units (add its unit to C17.UNITS)' % s_['qname'])
+            seen.add(s_['qname'])
+            g = gs[0]
+            run.instance(rid)
+            needs = []
+            for j, m in g.calls():
+                cn = g.cname(m) or ''
+                if cn in ('QDomElement::hasAttribute', 'QDomElement::attribute', 'QDomElement::attributeNS', 'QDomElement::hasAttributeNS') and m.get('args'):
+                    needs.append(('attribute', g.strval(m['args'][0]) or '?'))
+                elif cn in ('QDomNode::firstChildElement', 'QXmpp::Private::firstChildElement', 'QDomElement::text', 'QDomNode::hasChildNodes'):
+                    needs.append(('child', g.fmt(j, inline=False)[:40]))
+            if not needs:
+                run.ok(rid, g.loc(), '%s decides by tag name and namespace only' % s_['qname'], nontrivial=False)
+                continue
+            T = s_['record']
+            writers = [w for w in prog.fns.values() if w.record == T and w.entry is not None and not w.is_lambda and any('QXmlStreamWriter' in p_['t'] for p_ in w.params)]
+            bad = None
+            for kind, name in needs:
+                if kind != 'attribute':
+                    bad = (kind, name, 'the writer is not required to emit it')
+                    break
+                # enumerators the predicate exempts: "hasAttribute(name) || <test naming an enumerator>"
+                exempt = set()
+                for j, m in enumerate(g.nodes):
+                    bo = g.binop(j)
+                    if bo and bo[0] == '||':
+                        for x, y in ((bo[1], bo[2]), (bo[2], bo[1])):
+                            if any(g.nodes[z]['k'] == 'call' and (g.cname(g.nodes[z]) or '') == 'QDomElement::hasAttribute' and g.strval(g.nodes[z]['args'][0]) == name for z in g.walk(x)):
+                                exempt |= {g.nodes[z]['name'] for z in g.walk(y) if g.nodes[z]['k'] == 'enum'}
+                worlds = [None]
+                tfield = None
+                if exempt:
+                    en = prog.enums.get(sorted(exempt)[0].rsplit('::', 1)[0])
+                    tf = [fl for r_ in prog.records.values() if r_['qname'].startswith(T) for fl in r_.get('fields', []) if en and (fl.get('t') or '').endswith(en['qname'].split('::')[-1])]
+                    if en and len(tf) == 1:
+                        tfield = tf[0].get('qname')
+                        worlds = [e_['qname'] if isinstance(e_, dict) and 'qname' in e_ else (en['qname'] + '::' + (e_['name'] if isinstance(e_, dict) else e_)) for e_ in en['enumerators']]
+
+                def event_of(w_, nid, name=name):
+                    m = w_.nodes[nid]
+                    if m['k'] == 'call' and (w_.cname(m) or '') == 'QXmlStreamWriter::writeAttribute' and m.get('args') and w_.strval(m['args'][0]) == name:
+                        return 'W'
+                    return None
+                for world in worlds:
+                    if world is not None and world in exempt:
+                        continue
+                    binds = {'field:' + tfield: ('enum', world)} if world is not None else None
+                    always = False
+                    for w in writers:
+                        seqs = cfgx.effect_sequences(prog, w, event_of, bindings=binds)
+                        if seqs and all('W' in q for q in seqs):
+                            always = True
+                    if not always:
+                        bad = (kind, name, 'the writer emits it only when the member is non-empty (writeOptionalXmlAttribute / conditional)' +
+                               (' for %s' % world.split('::')[-1] if world else ''))
+                        break
+                if bad:
+                    break
+            if bad:
+                run.violation(rid, '%s#requires-%s:%s' % (T, bad[0], bad[1]), g.loc(),
+                              '%s insists on the %s "%s", but %s: a %s serialized without it in the sensitive part is parsed back as an unknown extension (the field is lost, and the '
+                              'element is written in the public part when the parsed message is serialized again)' % (s_['qname'], bad[0], bad[1], bad[2], T))
+            else:
+                run.ok(rid, g.loc(), '%s: every attribute it insists on is always written by the writer' % s_['qname'])
+
+
+def _guarded_nodes(f, call):
+    """nodes of the blocks control-dependent on the condition the call sits in (one level): the region of what the predicate guards"""
+    out = []
+    for b in f.blocks.values():
+        t = b.get('term')
+        if t and t.get('cond') is not None and call in set(f.walk(t['cond'])):
+            for s_ in b['succs'][:1]:
+                if s_ is not None:
+                    out += list(f.blocks[s_]['elems'])
+    return out
